@@ -217,8 +217,11 @@ async def _run_acts(ctx, ev, sp, prog, att, v, uid, bid):
             from vf import events as E
 
             types_ = [E.BY_NAME[t] for t in act["types"]]
-            got = ctx.collect_events(ev, types_, buffer_id=act.get("buf"))
-            r.add("collect", step=step, bid=bid, uid=uid, buf=act.get("buf") or "default",
+            buf = act.get("buf")
+            if act.get("buf_from") is not None:
+                buf = f"b{ev.get(act['buf_from'], 0)}"
+            got = ctx.collect_events(ev, types_, buffer_id=buf)
+            r.add("collect", step=step, bid=bid, uid=uid, buf=buf or "default", etype=type(ev).__name__,
                   got=None if got is None else [[type(x).__name__, x.get("uid", None), x.get("v", None)] for x in got])
             if got is None:
                 return None
